@@ -118,6 +118,7 @@ theorem exec_frame (g : Graph) (ps : List Prim) (n : Nat) (s : Stmt)
   | setw l v w => simp only [exec]; rw [scan_applyAll ps g l (h l rfl)]
   | del l => simp only [exec]; rw [scan_applyAll ps g l (h l rfl)]
   | merge l k => simp only [exec]; rw [scan_applyAll ps g l (h l rfl)]
+  | setrep l ds => simp only [exec]; rw [scan_applyAll ps g l (h l rfl)]
 
 theorem execCreate_lbl (l : Nat) (w : Bool) (rows : List (Nat × Q)) : ∀ id, ∀ p ∈ (execCreate l w id rows).prims, p.lbl = l := by
   induction rows with
@@ -156,6 +157,33 @@ theorem execSetp_lbl (l : Nat) (ns : List Node) : ∀ p ∈ (execSetp l ns).prim
       · subst hp; rfl
       · exact ih p hp
 
+theorem execSetRepRow_lbl (l : Nat) (d : Q) (ns : List Node) : ∀ p ∈ (execSetRepRow l d ns).prims, p.lbl = l := by
+  induction ns with
+  | nil => intro p hp; simp [execSetRepRow] at hp
+  | cons n ns ih =>
+    intro p hp
+    simp only [execSetRepRow] at hp
+    split at hp
+    · simp only [List.mem_singleton] at hp; subst hp; rfl
+    · simp only [List.mem_cons] at hp
+      rcases hp with hp | hp | hp
+      · subst hp; rfl
+      · subst hp; rfl
+      · exact ih p hp
+
+theorem execSetRep_lbl (l : Nat) (ns : List Node) (ds : List Q) : ∀ p ∈ (execSetRep l ns ds).prims, p.lbl = l := by
+  induction ds with
+  | nil => intro p hp; simp [execSetRep] at hp
+  | cons d ds ih =>
+    intro p hp
+    simp only [execSetRep] at hp
+    split at hp
+    · exact execSetRepRow_lbl l d ns p hp
+    · simp only [List.mem_append] at hp
+      rcases hp with hp | hp
+      · exact execSetRepRow_lbl l d ns p hp
+      · exact ih p hp
+
 /-- everything a statement stages carries the label the statement writes -/
 theorem exec_writes (g : Graph) (n : Nat) (s : Stmt) : ∀ p ∈ (exec g n s).prims, s.writes = some p.lbl := by
   intro p hp
@@ -176,6 +204,7 @@ theorem exec_writes (g : Graph) (n : Nat) (s : Stmt) : ∀ p ∈ (exec g n s).pr
     split at hp
     · simp at hp
     · simp only [List.mem_singleton] at hp; subst hp; rfl
+  | setrep l ds => simp only [exec] at hp; simp [Stmt.writes, execSetRep_lbl l _ ds p hp]
 
 /-- without the trigger the code's step is the read-your-writes step -/
 theorem step_ryw_eq (atomic : Bool) (σ : State) (op : Op)
